@@ -132,7 +132,7 @@ def run(c):
                 c.fail("oracle", "Load kills the process (fatal runtime error that recover() cannot catch; stack capped at 96 MB)", input=inp,
                        observed=o.get("err"), expected="nil or a located error")
             elif o["kind"] == "timeout":
-                c.fail("oracle", "Load does not return within 5 s", input=inp, observed="timeout", expected="nil or a located error")
+                c.fail("oracle", "Load does not return within 5 s, nor within 30 s when tried again", input=inp, observed="timeout", expected="nil or a located error")
             elif o["kind"] == "error" and not o["located"]:
                 c.fail("oracle", "Load error does not name the file and line", input=inp, observed=o.get("err"),
                        expected="an error mentioning rules.go:<line>")
